@@ -199,6 +199,20 @@ CLAIMED = {
             'Trusted: mercantile tile arithmetic (cross-checked against the closed formula), exact location of coordinates on '
             'the zoom-8 lattice by float comparison with tile edges.',
             '5/C17'),
+    'C08': ('TLA+ spec of the paired T statistics as formal expressions and of the signed-rank machinery on exact integers '
+            '(PairedTW.tla); TLC checks the symmetry properties; for every real evaluation TLC returns the expressions / '
+            'integers, interpreted at 50 digits and compared with paired_t_test, binary_paired_t_test and w_test',
+            'TLC checks Antisymmetry (all coefficients of sum X_i and N_A-N_B negate under swapping), VarianceSymmetric, '
+            'SelfComparisonZero, WSymmetric, RankSum, VarPositive for all catalogs of 2..4 events on 3 bins and all sign / '
+            'weak-order patterns of <=4 differences (7 613 states). On real code, 60 (quick) / 500 (thorough) random forecast '
+            'pairs on a 24-bin region (rates 1e-9..10, near-equal, repeated values, self comparison) with catalogs of 2..200 '
+            'events, alpha in {0.01, 0.05, 0.5}, scale on/off are evaluated in both argument orders: information gain, t '
+            'statistic, critical value and interval must equal the TLC-given expressions (Poisson and per-active-bin variants), '
+            'the Wilcoxon z and p the TLC-given values for the sign / weak-order pattern, swapped calls must negate / mirror / '
+            'coincide, and every call must return a result.',
+            'Leaves evaluated with mpmath (t quantile by bisection on the incomplete beta). W patterns are only formed when '
+            'distinct differences are separated by > 1e-9 relative. Trusted: vh/xr.py.',
+            '5/C08'),
 }
 
 NOT_YET = 'check not built yet in this round (specification planned in DESIGN.md section 5); not claimed until it exists'
